@@ -52,20 +52,40 @@ pub struct ConsumerCase {
     /// take the iterator through `&graph` iteration instead of `get_node_kmer`
     pub via_graph_iter: bool,
     pub ops: Vec<Op>,
+    /// which live iterator each op goes to (index mod number of iterators; empty = all to the first)
+    #[serde(default)]
+    pub which: Vec<u8>,
+    #[serde(default)]
+    pub second: Option<Second>,
+}
+
+#[derive(Clone, Debug, Serialize, Deserialize)]
+pub struct Second {
+    pub same_node: bool,
+    pub node_sel: usize,
+    pub via_clone: bool,
 }
 
 fn f<K: Kmer>(k: Option<K>) -> String {
     k.map(|k| dna::to_ascii(&kmer_bases(&k))).unwrap_or_else(|| "None".into())
 }
 
-fn run_consumer<K: Kmer + Send + Sync>(c: &ConsumerCase, rec: &mut Rec) -> Result<(), Violation> {
-    let g = build::<K>(&c.graph);
-    rec.ev("graph", g.len() as u64, 0);
-    if g.len() == 0 {
-        return Ok(());
-    }
-    let id = c.node_sel % g.len();
-    let model = node_kmers_model(&g, id);
+struct Slot<'g, K: Kmer> {
+    it: debruijn::graph::NodeKmerIter<'g, K, u16>,
+    model: Vec<K>,
+    pos: usize,
+    past_end: bool,
+    id: usize,
+}
+
+fn open_slot<'g, K: Kmer + Send + Sync>(
+    g: &'g DebruijnGraph<K, u16>,
+    id: usize,
+    via_graph_iter: bool,
+    via_clone: bool,
+    rec: &mut Rec,
+) -> Result<Slot<'g, K>, Violation> {
+    let model = node_kmers_model(g, id);
     let n = model.len();
     if id == g.len() - 1 {
         rec.count("reach_last_node_of_set");
@@ -77,15 +97,22 @@ fn run_consumer<K: Kmer + Send + Sync>(c: &ConsumerCase, rec: &mut Rec) -> Resul
     if (start % 32) + g.get_node(id).len() > 32 {
         rec.count("reach_node_spans_storage_block");
     }
-    let nk = if c.via_graph_iter {
-        (&g).into_iter().nth(id).expect("graph iteration ended early")
+    let nk = if via_graph_iter {
+        g.into_iter().nth(id).expect("graph iteration ended early")
     } else {
         g.get_node_kmer(id)
     };
     if nk.node_id != id {
         return Err(Violation::new("node-order", "NodeIntoIter::next", format!("asked for node {}, got {}", id, nk.node_id)));
     }
-    let mut it = nk.into_iter();
+    let it = if via_clone {
+        // boomphf's parallel constructor clones the NodeKmer before iterating it
+        let c = nk.clone();
+        drop(nk);
+        c.into_iter()
+    } else {
+        nk.into_iter()
+    };
     // exact remaining count, up front
     let (lo, hi) = it.size_hint();
     if it.len() != n || lo != n || hi != Some(n) {
@@ -95,9 +122,36 @@ fn run_consumer<K: Kmer + Send + Sync>(c: &ConsumerCase, rec: &mut Rec) -> Resul
             format!("node {} has {} k-mers, iterator reports len {} hint ({},{:?})", id, n, it.len(), lo, hi),
         ));
     }
-    let mut pos = 0usize;
-    let mut past_end = false;
+    Ok(Slot {
+        it,
+        model,
+        pos: 0,
+        past_end: false,
+        id,
+    })
+}
+
+fn run_consumer<K: Kmer + Send + Sync>(c: &ConsumerCase, rec: &mut Rec) -> Result<(), Violation> {
+    let g = build::<K>(&c.graph);
+    rec.ev("graph", g.len() as u64, 0);
+    if g.len() == 0 {
+        return Ok(());
+    }
+    let id = c.node_sel % g.len();
+    let mut slots: Vec<Slot<K>> = vec![open_slot(&g, id, c.via_graph_iter, false, rec)?];
+    if let Some(sec) = &c.second {
+        // a second iterator alive at the same time: over another node, or over a clone of the same one
+        let id2 = if sec.same_node { id } else { sec.node_sel % g.len() };
+        slots.push(open_slot(&g, id2, !c.via_graph_iter, sec.via_clone, rec)?);
+        rec.count("reach_two_live_iterators");
+    }
+    let mut max_n = 0;
     for (step, op) in c.ops.iter().enumerate() {
+        let w = (c.which.get(step).cloned().unwrap_or(0) as usize) % slots.len();
+        let sl = &mut slots[w];
+        let n = sl.model.len();
+        max_n = max_n.max(n);
+        let (id, pos, past_end) = (sl.id, sl.pos, sl.past_end);
         let remaining = n - pos;
         let (skip, label) = match op {
             Op::Next => (0usize, "next()".to_string()),
@@ -108,7 +162,7 @@ fn run_consumer<K: Kmer + Send + Sync>(c: &ConsumerCase, rec: &mut Rec) -> Resul
             }
         };
         let is_next = matches!(op, Op::Next);
-        rec.choice(if is_next { "op_next" } else { "op_nth" }, skip as u64, false);
+        rec.choice(if is_next { "op_next" } else { "op_nth" }, skip as u64 * 2 + w as u64, false);
         if !is_next {
             if skip > 4 {
                 rec.count("op_nth_jump_branch");
@@ -118,7 +172,7 @@ fn run_consumer<K: Kmer + Send + Sync>(c: &ConsumerCase, rec: &mut Rec) -> Resul
         } else {
             rec.count("op_next");
         }
-        let want = if pos + skip < n { Some(model[pos + skip]) } else { None };
+        let want = if pos + skip < n { Some(sl.model[pos + skip]) } else { None };
         if want.is_none() {
             if !past_end {
                 rec.count(if skip > 4 && !is_next { "reach_jump_past_end" } else { "reach_step_past_end" });
@@ -126,6 +180,7 @@ fn run_consumer<K: Kmer + Send + Sync>(c: &ConsumerCase, rec: &mut Rec) -> Resul
                 rec.count("reach_call_after_end");
             }
         }
+        let it = &mut sl.it;
         let got = guarded(|| if is_next { it.next() } else { it.nth(skip) });
         let got = match got {
             Ok(g) => g,
@@ -153,9 +208,10 @@ fn run_consumer<K: Kmer + Send + Sync>(c: &ConsumerCase, rec: &mut Rec) -> Resul
                 class,
                 if is_next { "NodeKmerIter::next" } else { "NodeKmerIter::nth" },
                 format!(
-                    "step {}: {} on node {} ({} k-mers, {} consumed{}) returned {} but the model says {}",
+                    "step {}: {} on iterator {} over node {} ({} k-mers, {} consumed{}) returned {} but the model says {}",
                     step,
                     label,
+                    w,
                     id,
                     n,
                     pos,
@@ -166,14 +222,28 @@ fn run_consumer<K: Kmer + Send + Sync>(c: &ConsumerCase, rec: &mut Rec) -> Resul
             ));
         }
         if want.is_none() {
-            past_end = true;
-            pos = n;
+            sl.past_end = true;
+            sl.pos = n;
         } else {
-            pos += skip + 1;
+            sl.pos += skip + 1;
         }
     }
-    rec.nontrivial = c.ops.iter().any(|o| !matches!(o, Op::Next)) && n >= 2;
+    rec.nontrivial = c.ops.iter().any(|o| !matches!(o, Op::Next)) && max_n >= 2;
     Ok(())
+}
+
+impl ConsumerCase {
+    fn with_second(mut self, rng: &mut Rng) -> ConsumerCase {
+        if rng.chance(1, 3) {
+            self.second = Some(Second {
+                same_node: rng.chance(1, 2),
+                node_sel: rng.below(1 << 16),
+                via_clone: rng.chance(1, 2),
+            });
+            self.which = (0..self.ops.len()).map(|_| rng.below(2) as u8).collect();
+        }
+        self
+    }
 }
 
 fn gen_ops(rng: &mut Rng) -> Vec<Op> {
@@ -219,7 +289,10 @@ impl Harness for Consumer {
             node_sel: if rng.chance(1, 4) { usize::MAX } else { rng.below(1 << 16) },
             via_graph_iter: rng.chance(1, 2),
             ops: gen_ops(rng),
+            which: Vec::new(),
+            second: None,
         }
+        .with_second(rng)
     }
     fn run(&self, c: &ConsumerCase, rec: &mut Rec) -> Result<(), Violation> {
         with_k!(
@@ -231,9 +304,18 @@ impl Harness for Consumer {
     }
     fn shrink(&self, c: &ConsumerCase) -> Vec<ConsumerCase> {
         let mut out = Vec::new();
+        if c.second.is_some() {
+            let mut x = c.clone();
+            x.second = None;
+            x.which.clear();
+            out.push(x);
+        }
         for i in 0..c.ops.len() {
             let mut x = c.clone();
             x.ops.remove(i);
+            if i < x.which.len() {
+                x.which.remove(i);
+            }
             out.push(x);
         }
         for (i, op) in c.ops.iter().enumerate() {
